@@ -131,7 +131,9 @@ def run_verus_unit(unit, tier, rlimit=None):
                       src=a["linemap"].get(s["line_start"])) for s in d.get("spans", [])]
         rec = dict(unit=unit, function=fn, message=msg, line=line, src=src, spans=allsp, rendered=d.get("rendered", "")[:3000])
         low = msg.lower()
-        if any(u in low for u in UNDECIDED_MSGS):
+        if d.get("code"):
+            bad.append(("not-a-verification-input", rec))   # rustc-level error (type/name resolution), never a proof failure
+        elif any(u in low for u in UNDECIDED_MSGS):
             bad.append(("rlimit/timeout", rec))
         elif any(v in low for v in VERIFY_MSGS):
             failures.append(rec)
